@@ -43,6 +43,13 @@ def templates(tier, seed=0):
         body = ['    print(%s)' % x for x in names] or ['    print(0)']
         calls = ['print(f(%s))' % ', '.join(str(10 + j) for j in range(k)) for k in range(6)]
         ts.append({'name': 'arity-%s' % nm, 'src': '\n'.join(['n := @h0@', 'fn f(%s) {' % params] + body + ['    return 1', '}'] + ladder('n', calls) + ['print(9)']) + '\n', 'assume': lambda v: [v['h0'] >= 0, v['h0'] <= 6]})
+    flat = ['[' + ', '.join(str(20 + j) for j in range(k)) + ']' for k in range(5)]
+    for params, nm in [('..r', 'r0'), ('a, ..r', 'r1'), ('a, b, ..r', 'r2'), ('a, b, c', 3), ('', 0)]:
+        names = [p.strip().lstrip('.') for p in params.split(',') if p.strip()]
+        body = ['    print(%s)' % x for x in names] or ['    print(0)']
+        calls2 = ['print(f(xs..))', 'print(f(xs.., ys..))', 'print(f(1, xs..))', 'print(f(xs.., 2))', 'print(f(none.., none..))', 'print(f(none.., 1, none..))']
+        src = ['n := @h0@', 'm := @h1@', 'none := []', 'ys := [7]', 'xs := []'] + ladder('n', ['xs = ' + l for l in flat]) + ['fn f(%s) {' % params] + body + ['    return 1', '}'] + ladder('m', calls2) + ['print(9)']
+        ts.append({'name': 'arity-spread-%s' % nm, 'src': '\n'.join(src) + '\n', 'assume': lambda v: [v['h0'] >= 0, v['h0'] < 5, v['h1'] >= 0, v['h1'] < 6]})
     ts.append({'name': 'param-fresh', 'src': 'x := @h10@\nys := [@h11@]\nfn f(x, ys) {\n    x = x + 1\n    ys[0] = x\n    ys = [0]\n    return x\n}\nprint(f(x, ys))\nprint(x)\nprint(ys)\nfn rec(n, acc) {\n    if n == 0 {\n        return acc\n    }\n    acc2 := acc + [n]\n    return rec(n - 1, acc2)\n}\nprint(rec(3, []))\n'})
     ts.append({'name': 'runs-off-end', 'src': 'fn f(c) {\n    if c {\n        return 5\n    }\n}\nprint(f(@b0@))\ng := fn () {\n    x := 1\n}\nprint(g())\n'})
     # a function never reached through an object has no `this` of its own, unless an enclosing function's `this` is in scope
